@@ -764,6 +764,23 @@ fn stage_exhaustive(st: &mut St<'_>, arena: &Arena, idx: u64) {
         for to in ["", "x", n.as_str(), nn.as_str(), "é"] {
             st.check_replace(arena, &h, &n, to);
         }
+        // every replacement of the pattern's own length over the same letters (substituted text
+        // that spells the pattern again together with what follows must not be matched again),
+        // and one character shorter / longer
+        let len = n.chars().count();
+        if (1..=3).contains(&len) {
+            let first = (1u64 << len) - 1;
+            for no in first..first + (1u64 << len) {
+                let to = shortlex(no, letters);
+                if to != n {
+                    st.check_replace(arena, &h, &n, &to);
+                }
+            }
+            let shorter = shortlex((1u64 << (len - 1)) - 1 + (idx % (1u64 << (len - 1))), letters);
+            st.check_replace(arena, &h, &n, &shorter);
+            let longer = shortlex((1u64 << (len + 1)) - 1 + (idx % (1u64 << (len + 1))), letters);
+            st.check_replace(arena, &h, &n, &longer);
+        }
         st.check_split_join(arena, &h, &n);
     }
     st.out.tag("exhaustive.haystacks_completed");
